@@ -304,19 +304,19 @@ def run(ctx):
             optypes=tset(["NS", "CNAME"]) if quick else tset(["NS", "A", "CNAME"]), kinds=tset(["put", "delrds"]))
         if not quick:
             # G2b: every sequence of 3 operations, each in its own transaction, nested zones
-            add("g2b", fixed="FixedTwo", plans="P_3one", names="CoreNames")
+            add("g2b", fixed="FixedTwo", plans="P_3one", names="CoreNames", lens=tset([]))
             # G2c: rdata-level operations and rollbacks, two operations
-            add("g2c", fixed="FixedTwo", plans="P_2", names="CoreNames", optypes=tset(["NS", "A", "CNAME"]), rdids=tset([1, 2]),
+            add("g2c", fixed="FixedTwo", plans="P_2", names="NoApexCore", lens=tset([]), optypes=tset(["NS", "CNAME"]), rdids=tset([1, 2]),
                 kinds=tset(["add", "delrd", "delnode"]), ends=tset(["commit", "rollback"]))
         # G3: long seeded histories: all operation kinds, TXT, two rdatas, rollbacks, reloads
-        n = 1200 if quick else 30000
+        n = 1200 if quick else 15000
         add("g3", sim=(n, 60, ctx.seed + 1), names="UNames" if quick else "WNames", qset="U" if quick else "W",
             optypes=tset(["NS", "A", "TXT", "CNAME"]), rdids=tset([1, 2]), recs="URecs" if quick else "WRecsOne",
             lens=tset([4, 6, 8]), kinds=tset(["put", "add", "delrd", "delrds", "delnode"]), plans="P_sim",
             ends=tset(["commit", "commit", "rollback"]))
         # G4: B-tree restructuring: a big owner universe (every name of the table: up to a dozen sibling
         #     cuts), loads of 10-18 records, many rollbacks; only run with small branching factors
-        add("g4", sim=(500 if quick else 10000, 70, ctx.seed + 11), names="BNames", qset="W", optypes=tset(["NS", "A", "CNAME"]),
+        add("g4", sim=(500 if quick else 6000, 70, ctx.seed + 11), names="BNames", qset="W", optypes=tset(["NS", "A", "CNAME"]),
             rdids=tset([1]), recs="BRecs", lens=tset([10, 14, 18]), kinds=tset(["put", "add", "delrd", "delrds", "delnode"]),
             plans="P_sim", ends=tset(["commit", "rollback"]))
         # G5: the same, systematically: zones loaded in ascending order with 6 .. all names of the table
@@ -357,7 +357,8 @@ def run(ctx):
                     if (i // 2) % 2 == r:
                         job(h, qset, rel, sp, tag, i, "origin", 3 if i % 2 == 0 else 4)
                     continue
-                if tag.startswith("g1"):
+                small_g1 = tag.startswith("g1") and tag != "g1chain"
+                if small_g1:
                     job(h, qset, rel, sp, tag, i, "origin", 0)
                     job(h, qset, rel, sp, tag, i, "origin", 3)
                     if i % 2 == r:
@@ -368,7 +369,7 @@ def run(ctx):
                         job(h, qset, rel, sp, tag, i, "origin", 4)
                 # the same history on a zone created WITHOUT an origin: dns.zone.from_text learns it from
                 # $ORIGIN in the first transaction.  Every load order (G1), a share of the rest.
-                if tag.startswith("g1") or i % (8 if tag.startswith("g2") else 3) == 0:
+                if small_g1 or i % (8 if tag.startswith("g2") else 3) == 0:
                     job(h, qset, rel, "oth" if i % 2 else "nat", tag, i, "learn", 3 if (i // 2 + r) % 2 else 0)
         ctx.extra["histories"] = len(hists)
         traces = ctx.pmap(D.run_job, jobs)
